@@ -188,6 +188,16 @@ class RecT(Type):
         self.cls = cls
         self.fields = fields
 
+    def alternatives(self):
+        """a record with fields that have alternatives is verified once per combination"""
+        import itertools
+
+        names = list(self.fields)
+        alts = [self.fields[n].alternatives() for n in names]
+        if all(len(a) == 1 and a[0] is self.fields[n] for a, n in zip(alts, names)):
+            return [self]
+        return [RecT(self.cls, **dict(zip(names, combo))) for combo in itertools.product(*alts)]
+
     def fresh(self, name):
         vals, wf = {}, []
         for k, t in self.fields.items():
